@@ -28,7 +28,10 @@ import (
 	"hop.computer/hop/certs"
 	"hop.computer/hop/core"
 	"hop.computer/hop/keys"
+	"hop.computer/hop/transport"
+	"verif/harness/hopkit"
 	"verif/harness/rec"
+	"verif/harness/simwire"
 )
 
 type choice struct {
@@ -36,6 +39,7 @@ type choice struct {
 	Decision string `json:"decision"`
 	Setup    string `json:"setup"`
 	TBeh     string `json:"tbeh"`
+	GT       string `json:"gt"`
 }
 
 type scenario struct {
@@ -66,6 +70,11 @@ func mkIntent(k int, c choice) authgrants.Intent {
 		TargetUsername: user,
 		DelegateCert:   *delegateCert,
 	}
+	if c.GT == "pf" {
+		// a grant type the messages cannot carry: the encoder reports an error after the bytes have gone out
+		i.GrantType = authgrants.LocalPF
+		return i
+	}
 	switch k % 3 {
 	case 1:
 		i.AssociatedData.CommandGrantData.Cmd = fmt.Sprintf("make deploy-%d", k)
@@ -80,9 +89,7 @@ func mkIntent(k int, c choice) authgrants.Intent {
 
 func enc(i authgrants.Intent) []byte {
 	var b bytes.Buffer
-	if _, err := i.WriteTo(&b); err != nil {
-		panic(err)
-	}
+	i.WriteTo(&b) // port-forwarding intents report an error after everything has been written
 	return b.Bytes()
 }
 
@@ -147,7 +154,13 @@ func runScenario(s scenario, w *rec.W) {
 		case "dialfail":
 			return nil, errors.New("dial: no route to host")
 		case "ok", "postfail":
-			if err := verify(targetCert); err != nil {
+			if s.ID%3 != 0 {
+				// a REAL transport handshake with a target server carries the approval, as in hopclient.setupTargetClient:
+				// the verification callback is installed in the client's VerifyConfig, with and without InsecureSkipVerify
+				if err := realHandshake(verify, s.ID%3 == 1); err != nil {
+					return nil, fmt.Errorf("handshake failed: %w", err)
+				}
+			} else if err := verify(targetCert); err != nil {
 				return nil, fmt.Errorf("handshake failed: %w", err)
 			}
 			if c.Setup == "postfail" {
@@ -158,7 +171,7 @@ func runScenario(s scenario, w *rec.W) {
 				return nil, fmt.Errorf("handshake failed: %w", err)
 			}
 		}
-		pSide, rSide := net.Pipe()
+		pSide, rSide := bufPipe() // buffered, like the authorization-grant tube it stands for
 		relays = append(relays, pSide, rSide)
 		go relay(o, s, rSide, u.String())
 		return pSide, nil
@@ -175,12 +188,18 @@ func runScenario(s scenario, w *rec.W) {
 		o.current = k + 1
 		o.mu.Unlock()
 		dcD.SetDeadline(time.Now().Add(5 * time.Second))
-		if err := authgrants.WriteIntentRequest(dcD, intents[k]); err != nil {
+		if err := authgrants.WriteIntentRequest(dcD, intents[k]); err != nil && s.Sc[k].GT != "pf" {
 			answers[k] = append(answers[k], "writefail:"+err.Error())
 			break
 		}
+		gone := false
+		for _, c := range s.Sc[:k] {
+			gone = gone || c.GT == "pf"
+		}
 		for n := 0; n < 4; n++ {
-			if n == 0 {
+			if n == 0 && gone {
+				dcD.SetReadDeadline(time.Now().Add(300 * time.Millisecond)) // nobody is expected to answer any more
+			} else if n == 0 {
 				dcD.SetReadDeadline(time.Now().Add(5 * time.Second))
 			} else {
 				dcD.SetReadDeadline(time.Now().Add(15 * time.Millisecond))
@@ -218,6 +237,75 @@ func runScenario(s scenario, w *rec.W) {
 	o.mu.Unlock()
 }
 
+// bufConn is one end of a BUFFERED in-memory stream (a tube buffers; net.Pipe does not): writes never block.
+type bufHalf struct {
+	mu     sync.Mutex
+	cond   *sync.Cond
+	buf    bytes.Buffer
+	closed bool
+}
+type bufConn struct{ r, w *bufHalf }
+
+func bufPipe() (net.Conn, net.Conn) {
+	a, b := &bufHalf{}, &bufHalf{}
+	a.cond, b.cond = sync.NewCond(&a.mu), sync.NewCond(&b.mu)
+	return &bufConn{r: a, w: b}, &bufConn{r: b, w: a}
+}
+func (c *bufConn) Read(p []byte) (int, error) {
+	c.r.mu.Lock()
+	defer c.r.mu.Unlock()
+	for c.r.buf.Len() == 0 {
+		if c.r.closed {
+			return 0, io.EOF
+		}
+		c.r.cond.Wait()
+	}
+	return c.r.buf.Read(p)
+}
+func (c *bufConn) Write(p []byte) (int, error) {
+	c.w.mu.Lock()
+	defer c.w.mu.Unlock()
+	if c.w.closed {
+		return 0, io.ErrClosedPipe
+	}
+	c.w.buf.Write(p)
+	c.w.cond.Broadcast()
+	return len(p), nil
+}
+func (c *bufConn) Close() error {
+	for _, h := range []*bufHalf{c.r, c.w} {
+		h.mu.Lock()
+		h.closed = true
+		h.cond.Broadcast()
+		h.mu.Unlock()
+	}
+	return nil
+}
+func (c *bufConn) LocalAddr() net.Addr                { return nil }
+func (c *bufConn) RemoteAddr() net.Addr               { return nil }
+func (c *bufConn) SetDeadline(t time.Time) error      { return nil }
+func (c *bufConn) SetReadDeadline(t time.Time) error  { return nil }
+func (c *bufConn) SetWriteDeadline(t time.Time) error { return nil }
+
+var pki *hopkit.PKI
+var srvIdent, cliIdent *hopkit.Ident
+
+// realHandshake runs a transport handshake client -> target server over a simulated wire with the principal's
+// verification callback installed the way hopclient.setupTargetClient installs it.
+func realHandshake(verify authgrants.AdditionalVerifyCallback, skipVerify bool) error {
+	w := hopkit.NewWorld()
+	defer w.Close()
+	sa := simwire.Addr("10.0.0.1", 77)
+	srv := w.NewServer(sa, hopkit.SrvOpt{Ident: srvIdent})
+	pol := pki.Policy("store", "target.example")
+	if skipVerify {
+		pol = pki.Policy("skip", "")
+	}
+	pol.AddVerifyCallback = transport.AdditionalVerifyCallback(verify)
+	c := w.NewClient(simwire.Addr("10.0.1.1", 1001), sa, hopkit.CliOpt{Ident: cliIdent, Verify: pol})
+	return w.RunHandshake(c, srv)
+}
+
 func errName(err error) string {
 	var ne net.Error
 	if errors.As(err, &ne) && ne.Timeout() {
@@ -252,8 +340,10 @@ func relay(o *obs, s scenario, pc net.Conn, url string) {
 	go authgrants.StartTargetInstance(tT, delegateCert, tci, add)
 	defer tP.Close()
 	for {
+		// the relay is transparent at byte level: it parses a COPY to learn the message boundary and what is inside
 		var m authgrants.AgMessage
-		if _, err := m.ReadFrom(pc); err != nil {
+		var raw bytes.Buffer
+		if _, err := m.ReadFrom(io.TeeReader(pc, &raw)); err != nil {
 			return
 		}
 		o.mu.Lock()
@@ -274,16 +364,17 @@ func relay(o *obs, s scenario, pc net.Conn, url string) {
 			pc.Close()
 			return
 		}
-		if _, err := m.WriteTo(tP); err != nil {
+		if _, err := tP.Write(raw.Bytes()); err != nil {
 			pc.Close()
 			return
 		}
 		var a authgrants.AgMessage
-		if _, err := a.ReadFrom(tP); err != nil {
+		var rawA bytes.Buffer
+		if _, err := a.ReadFrom(io.TeeReader(tP, &rawA)); err != nil {
 			pc.Close()
 			return
 		}
-		if _, err := a.WriteTo(pc); err != nil {
+		if _, err := pc.Write(rawA.Bytes()); err != nil {
 			return
 		}
 	}
@@ -303,6 +394,9 @@ func main() {
 	if err != nil {
 		panic(err)
 	}
+	pki = hopkit.NewPKI()
+	srvIdent = pki.Issue("valid", "target.example")
+	cliIdent = pki.Issue("selfsigned", "principal")
 	f, err := os.Open(os.Args[1])
 	if err != nil {
 		panic(err)
